@@ -29,6 +29,9 @@ void SetStage(const char* stage);
 // per-case mode flags (reset by the supervisor before every case)
 extern bool g_relCopy;
 void ResetCaseFlags();
+// "amode": "copy" - while the operation runs, a COPY of operand A (sharing its storage) is alive; it is read back afterwards
+// as res.keep_after and must still have A's value (an operation must not write into storage it shares)
+void ShareIfAsked(const VATA::ExplicitTreeAut& a, const nlohmann::json& c);
 
 // ---------------------------------------------------------------- tree automata
 typedef VATA::ExplicitTreeAut TA;
@@ -57,5 +60,6 @@ json StateMapToJson(const VATA::AutBase::StateToStateMap& m);
 size_t StIn(size_t q);       // case state number -> library state number ("huge" presentation)
 size_t StOut(size_t q);
 std::string ExcName(const std::exception& e);
+void NoteKeep(json& res, const Alpha& alpha);
 
 #endif
